@@ -376,6 +376,16 @@ func Run(r *ev.Run) {
 	nets3 := []string{"tcp", "tcp4", "udp6"}
 	for _, n := range []int{2, 3} {
 		n := n
+		if n == 3 && r.Thorough() {
+			// keep the three-record family at ~50 M worlds: two ALPN shapes (none / 3 entries with spare capacity)
+			var keep []red
+			for _, rd := range reds {
+				if rd.alpn != 4 {
+					keep = append(keep, rd)
+				}
+			}
+			reds = keep
+		}
 		dims := enum.Product{}
 		for k := 0; k < n; k++ {
 			dims = append(dims, len(reds))
